@@ -14,8 +14,9 @@ import subprocess
 import sys
 import time
 
-VERIF = '/verif'
-REPO = '/repo'
+# VERIF_DIR / VERIF_REPO let several evaluations run side by side on private copies (tools/par_eval.sh)
+VERIF = os.environ.get('VERIF_DIR', '/verif')
+REPO = os.environ.get('VERIF_REPO', '/repo')
 
 
 def sh(cmd, cwd=None, timeout=1800, env=None):
@@ -47,12 +48,15 @@ def main():
                     meta[k] = om[k]
         except ValueError:
             pass
-    env = dict(os.environ, CARGO_TARGET_DIR='/tmp/ev_target', CARGO_NET_OFFLINE='true')
+    env = dict(os.environ, CARGO_TARGET_DIR=os.environ.get('VERIF_EV_TARGET', '/tmp/ev_target'), CARGO_NET_OFFLINE='true')
     if not skip_confirm:
-        wt = '/tmp/ev/' + name
+        import fcntl
+        _lock = open('/tmp/seed_eval_confirm.lock', 'w')
+        fcntl.flock(_lock, fcntl.LOCK_EX)   # the repository's tests bind fixed socket paths: one confirmation at a time
+        wt = os.environ.get('VERIF_EV_DIR', '/tmp/ev') + '/' + name
         sh('git -C %s worktree remove --force %s' % (REPO, wt))
         shutil.rmtree(wt, ignore_errors=True)
-        os.makedirs('/tmp/ev', exist_ok=True)
+        os.makedirs(os.environ.get('VERIF_EV_DIR', '/tmp/ev'), exist_ok=True)
         rc, out = sh('git -C %s worktree add -q --detach %s HEAD' % (REPO, wt))
         assert rc == 0, out
         try:
@@ -78,6 +82,7 @@ def main():
         finally:
             sh('git -C %s worktree remove --force %s' % (REPO, wt))
             shutil.rmtree(wt, ignore_errors=True)
+        fcntl.flock(_lock, fcntl.LOCK_UN)
         meta['confirmed'] = bool(meta.get('patch_applies') and meta.get('suite_passes_with_change') and meta.get('demo_fails_with_change') and meta.get('demo_passes_without_change'))
     # run the checks against it
     rc, out = sh('git -C %s status --porcelain -- src' % REPO)
